@@ -39,8 +39,13 @@ def drive_all(rep, flavour, nproc, rounds, fits, label):
             rep.violation("shared-object driver: %s" % b, payload=b)
         total += acc
         for rj in rejects:
-            rep.violation("concurrent use of a shared %s differs from the solo call: %s" % (rj["execution"][0].get("what"), rj["event"]),
-                          payload={"what": rj["execution"][0], "event": rj["event"]})
+            if rj["event"].get("e") == "Fit":
+                rep.violation("the same fit with different pool sizes / schedules gives a different model (replay: shared_driver <out> fit %s %s 30): %s"
+                              % (rj["event"].get("pseed"), "gboost" if rj["event"].get("model") == "gboost" else rj["event"].get("linear"),
+                                 {k: v for k, v in rj["event"].items() if k not in ("model0", "modelv")}), payload=rj["event"])
+            else:
+                rep.violation("concurrent use of a shared %s differs from the solo call: %s" % (rj["execution"][0].get("what"), rj["event"]),
+                              payload={"what": rj["execution"][0], "event": rj["event"]})
         for x in rs:
             if x["e"] == "Conc":
                 nconc += 1
